@@ -38,10 +38,13 @@
 (* of the declarative layer.                                                                        *)
 EXTENDS SecurityAlgorithms, TLC, Json
 
-CONSTANTS Thorough, Mut, Dev_h12, Dev_h13, Dev_ownerAbsent, Dev_length, Emit
+CONSTANTS Thorough, Mut, Dev_h12, Dev_h13, Dev_ownerAbsent, Dev_length, Dev_tableCache, Emit
 
-VARIABLES pc, cfg, absent, pws, w, try, res, todo, chk
-vars == <<pc, cfg, absent, pws, w, try, res, todo, chk>>
+VARIABLES pc, cfg, absent, pws, w, try, res, todo, chk,
+          hist,   \* the one-byte encodings the process converted text to before any judged computation, in call order
+          prep    \* password preparation of revisions 2-4: the text, its bytes per the standard (d), lopdf-shaped (l)
+pvars == <<hist, prep>>
+vars == <<pc, cfg, absent, pws, w, try, res, todo, chk, hist, prep>>
 
 -----------------------------------------------------------------------------
 (* configurations *)
@@ -94,10 +97,20 @@ Near(pw) == UNION ({IF pw \in {PwS(kj[1], kj[2]), PwE128(kj[1])} /\ (pw = PwS(kj
                        THEN {PwSV(kj[1], kj[2]), PwCut(kj[1], kj[2])} ELSE {} : kj \in KJ}
                   \cup {IF pw = PwF(k) THEN {PwFT(k), PwFCut(k)} ELSE {} : k \in 2..4})
 
-Users(R)  == {PwE, PwU, PwLat, PwL, PwXL} \cup (IF R >= 5 THEN Straddle ELSE {})
+\* revisions 2-4: passwords with characters on which the predefined one-byte encodings differ (PrepR234 = PDFDocEncoding)
+LatText == <<"a", "eacute", "udieresis">>            \* the text of PwLat
+Texts == {<<"a", "euro">>, <<"bullet", "a", "dagger">>, <<"eacute", "a">>, <<"euro">>}
+TextPws == {PrepR234(t) : t \in Texts}
+TextOf(seg) == IF seg = Seg("lat", 3) THEN LatText
+               ELSE IF \E t \in Texts : PrepR234(t).a[1] = seg THEN CHOOSE t \in Texts : PrepR234(t).a[1] = seg ELSE <<>>
+
+Users(R)  == {PwE, PwU, PwLat, PwL, PwXL} \cup (IF R >= 5 THEN Straddle ELSE TextPws)
 Owners(R, u) == IF u \in Straddle THEN {PwO, u}
+                ELSE IF u \in TextPws THEN {PwE, PwO, u}
                 ELSE {PwE, PwO, u, PwX32, PwL127} \cup (IF R >= 5 /\ u = PwU THEN Straddle ELSE {})
+                                                 \cup (IF R <= 4 /\ u = PwU THEN {PrepR234(<<"bullet", "a", "dagger">>), PrepR234(<<"euro">>)} ELSE {})
 Attempts(p) == {p.user, p.owner, PwW, PwE, PwX32, PwL127} \cup Near(p.user) \cup Near(p.owner)
+               \cup (IF {p.user, p.owner} \cap TextPws # {} THEN TextPws ELSE {})
 
 ItemSeq == <<"str.dict", "str.nested", "str.top", "str.streamdict", "stream", "stream.meta",
              "stream.xref", "str.encdict", "str.id">>
@@ -175,10 +188,12 @@ NoChk == [k |-> "none", isoiso |-> TRUE, g |-> TRUE, v |-> TRUE]
 NoRes == [isUser |-> FALSE, isOwner |-> FALSE, fk |-> None, lfk |-> None, permsOk |-> TRUE]
 NoW   == [O |-> None, U |-> None, OE |-> None, UE |-> None, Perms |-> None, fk |-> None]
 
+NoPrep == [txt |-> <<>>, d |-> PwE, l |-> PwE]
 Init ==
     /\ pc = "idle" /\ cfg = C(2, 1, 40, TRUE, "V2", "V2") /\ absent = FALSE
     /\ pws = [user |-> PwE, owner |-> PwE] /\ w = [iso |-> NoW, lopdf |-> NoW]
     /\ try = PwE /\ res = [iso |-> NoRes, v |-> NoRes] /\ todo = <<>> /\ chk = NoChk
+    /\ hist = <<>> /\ prep = NoPrep
 
 Configure ==
     /\ pc = "idle"
@@ -230,7 +245,27 @@ Finish ==
     /\ pc' = "done"
     /\ UNCHANGED <<cfg, absent, pws, w, try, res, todo, chk>>
 
-Next == Configure \/ WriteDict \/ Attempt \/ DecryptItem \/ Reject \/ Finish
+(* History: before any judged computation the process may have called the public text-encoding entry points      *)
+(* (Document::encode_text, replace_text, ...) with any of the predefined encodings.  Prepare is Algorithm 2 (a)'s     *)
+(* conversion of a password text.  The standard's conversion (d) does not look at the history; lopdf-shaped (l):       *)
+(* string_to_bytes(encoding, text) scans the table it is given - unless Dev_tableCache: the conversion table is        *)
+(* built on the first call and kept for the process, whatever encoding later calls name.                              *)
+Disturb ==
+    /\ pc = "idle" /\ Len(hist) < 2
+    /\ \E e \in OneByteEncodings : hist' = Append(hist, e)
+    /\ UNCHANGED <<pc, cfg, absent, pws, w, try, res, todo, chk, prep>>
+LopdfTable == IF Dev_tableCache /\ Len(hist) > 0 THEN hist[1] ELSE "PDFDoc"
+Prepare ==
+    /\ pc = "idle"
+    /\ \E t \in Texts \cup {LatText} : prep' = [txt |-> t, d |-> PrepR234(t), l |-> PrepText(LopdfTable, t)]
+    /\ pc' = "prepared"
+    /\ UNCHANGED <<cfg, absent, pws, w, try, res, todo, chk, hist>>
+\* the protocol itself is explored from the empty history (everything after Prepare is a function of the prepared bytes)
+Protocol == /\ hist = <<>>
+            /\ Configure \/ WriteDict \/ Attempt \/ DecryptItem \/ Reject \/ Finish
+            /\ UNCHANGED pvars
+
+Next == Disturb \/ Prepare \/ Protocol
 Spec == Init /\ [][Next]_vars
 
 -----------------------------------------------------------------------------
@@ -252,6 +287,16 @@ Shapes == pc \in {"written", "opened", "done"} =>
             /\ TLen(w.iso.fk) = KeyBytes(cfg.R, cfg.bits)
             /\ cfg.R >= 5 => TLen(w.iso.OE) = 32 /\ TLen(w.iso.UE) = 32 /\ TLen(w.iso.Perms) = 16
             /\ TLen(KeyOf(cfg, w.iso.fk, "stream")) = (IF cfg.R >= 5 THEN 32 ELSE Min(KeyBytes(cfg.R, cfg.bits) + 5, 16))
+
+(* password preparation is a function of the text alone *)
+PrepIsFunction == pc = "prepared" => prep.l = prep.d
+DevTableHere == Dev_tableCache /\ Len(hist) > 0 /\ TableSensitive(hist[1], prep.txt)
+ImplPrepRefines == pc = "prepared" => ((prep.l = prep.d) <=> ~DevTableHere)
+\* ... and a different preparation is a different password for every algorithm downstream
+PrepMatters == pc = "prepared" /\ prep.l # prep.d =>
+                  /\ Canon(3, prep.l) # Canon(3, prep.d)
+                  /\ OwnerKeyR234(3, 128, prep.l) # OwnerKeyR234(3, 128, prep.d)
+                  /\ FileKeyR234(3, 128, TRUE, prep.l, In("O", 32), sP, sId0) # FileKeyR234(3, 128, TRUE, prep.d, In("O", 32), sP, sId0)
 
 (* the Length entry: every legal form gives the reader the writer's key length (declarative) *)
 LengthAgreement == pc = "cfg" => /\ CanonLength(cfg) \in LegalLengths(cfg)
@@ -340,8 +385,9 @@ Defs(c, ab) ==
 \* the legal Length entries in ascending order
 SetToSeqLen(S) == LET lo == CHOOSE x \in S : \A y \in S : x <= y
                   IN IF Cardinality(S) = 1 THEN <<lo>> ELSE <<lo, CHOOSE x \in S : x # lo>>
+\* txt: the characters of a segment that is the PDFDocEncoding of a text with non-ASCII characters (else <<>>)
 SegsJson(p) == [i \in 1..Len(p.a) |-> [id |-> p.a[i].s, len |-> p.a[i].n[1],
-                                       split |-> IF p.a[i] \in SplitSegs THEN 1 ELSE 0]]
+                                       split |-> IF p.a[i] \in SplitSegs THEN 1 ELSE 0, txt |-> TextOf(p.a[i])]]
 
 EmitInv ==
     /\ (Emit /\ pc = "cfg") =>
@@ -352,6 +398,10 @@ EmitInv ==
                                                        LET len == SetToSeqLen(LegalLengths(cfg))[i]
                                                        IN [len |-> len, cls |-> LenClass(cfg, len), dev |-> DevLengthHere(cfg, len)]],
                                     defs |-> Defs(cfg, absent)])>>)
+    /\ (Emit /\ pc = "prepared") =>
+          PrintT(<<"PREP", ToJson([hist |-> hist, txt |-> prep.txt, d |-> SegsJson(prep.d),
+                                   sensitive |-> [e \in OneByteEncodings |-> TableSensitive(e, prep.txt)],
+                                   dev |-> DevTableHere])>>)
     /\ (Emit /\ pc = "done") =>
           PrintT(<<"CASE", ToJson([cfg |-> cfg, absent |-> absent,
                                    user |-> SegsJson(pws.user), owner |-> SegsJson(pws.owner), try |-> SegsJson(try),
